@@ -139,6 +139,7 @@ class Run:
         self.known: list[str] = []            # KNOWN-FINDING lines
         self.notes: list[str] = []
         self.obligations: list[tuple[str, bool, str]] = []   # (name, discharged, detail)
+        self.undischarged_known: list[dict] = []
         self.extra: dict[str, Any] = {}
         self.rule = ""
         self.exhaustive = False
@@ -155,8 +156,13 @@ class Run:
         if sample is not None and len(self.samples) < 3:
             self.samples.append(sample)
 
-    def obligation(self, name: str, ok: bool, detail: str = "") -> None:
-        self.obligations.append((name, ok, detail))
+    def obligation(self, name: str, ok: bool, detail: str = "", known: str | None = None) -> None:
+        """a per-run proof obligation; `known` = id of the listed known finding that makes it false on this tree
+        (then it is reported under `undischarged_known`, not counted as an obligation of this run)"""
+        if not ok and known:
+            self.undischarged_known.append({"name": name, "finding": known, "detail": detail[:300]})
+        else:
+            self.obligations.append((name, ok, detail))
 
     # -- output
 
@@ -185,6 +191,7 @@ class Run:
                 "theorems": self.theorems,
                 "theorem_axioms": {t: audit.get("axioms", {}).get(t) for t in self.theorems},
                 "run_obligations": [{"name": n, "discharged": ok, "detail": d[:300]} for n, ok, d in self.obligations],
+                "undischarged_known": self.undischarged_known,
                 "evaluations": self.evaluations, "distinct_nontrivial": len(self.nontrivial),
                 "rule": self.rule, "samples": self.samples[:3], "exhaustive": self.exhaustive,
                 "outcome_histogram": dict(sorted(self.hist.items())),
